@@ -133,7 +133,9 @@ def run(scn: Dict[str, Any]) -> UdpRun:
         lg = logging.getLogger("aioswitcher")
         lg.addHandler(tap)
         old_level = lg.level
-        lg.setLevel(logging.WARNING)
+        # the application's logging configuration is part of the environment: WARNING (library default), or the
+        # user has turned on INFO / DEBUG for the library
+        lg.setLevel({"DEBUG": logging.DEBUG, "INFO": logging.INFO}.get(cfg.get("log"), logging.WARNING))
 
         def showwarning(message, category, filename, lineno, file=None, line=None):
             if issubclass(category, ResourceWarning):
